@@ -11,7 +11,9 @@ from .. import gen
 from ..harness import Clause, Prop, require, rt
 
 BUILTIN = [("replacement", None), ("replacement", "by_label"), ("single_pass", None),
-           ("dynamic", None), ("dynamic", "by_label")]
+           ("dynamic", None), ("dynamic", "by_label"),
+           # "by_group ... Defaults to non-stratified sampling, if no groups are present."
+           ("replacement", "by_group"), ("single_pass", "by_group")]
 CI_METHODS = ["quantile", "bc", "bca"]
 
 
@@ -116,8 +118,11 @@ def check_real(case):
     def pointwise(sample):
         return np.stack([sample.fnr(sample.threshold_at_fpr(fpr)), sample.fpr(sample.threshold_at_fnr(fnr))], axis=0)
 
+    cfg_replay = cfg if case["strat"] != "by_group" else \
+        BootstrapConfig(nb_samples=case["nb"], bootstrap_method=case["ci"], sampling_method=case["method"],
+                        stratified_sampling=None)  # the documented fallback, spelt out
     np.random.seed(case["seed"])
-    joint = np.asarray(s.bootstrap_ci(metric=pointwise, alpha=case["alpha"], config=cfg), dtype=float)
+    joint = np.asarray(s.bootstrap_ci(metric=pointwise, alpha=case["alpha"], config=cfg_replay), dtype=float)
     if not np.isnan(joint).any():
         o = case["o"]
         alpha = case["alpha"]
@@ -217,18 +222,22 @@ def check_identity(case):
 def _exp_cases(draw):
     fn = draw(st.sampled_from(["pointwise_band_ci", "simultaneous_joint_region_ci", "fixed_width_band_ci"]))
     o = draw(_score_objects(max_size=24, min_size=1))
-    shape = draw(st.sampled_from(["any", "any", "any", "few-neg", "few-pos"]))
+    shape = draw(st.sampled_from(["any", "any", "any", "few-neg", "few-pos"] if fn != "fixed_width_band_ci"
+                                 else ["any", "few-neg", "few-pos", "few-pos"]))
     if shape != "any":
-        # very unbalanced classes (the fixed-width search is sensitive to the class ratio)
-        big = [k / 2 for k in draw(st.lists(st.integers(-20, 20), min_size=17, max_size=60))]
+        # very unbalanced classes (the fixed-width search is sensitive to the class ratio, in
+        # either direction; beyond 16:1 its displacement slope leaves [1/4, 4])
         small = [k / 2 for k in draw(st.lists(st.integers(-20, 20), min_size=1, max_size=3))]
+        lo_big = 16 * len(small) + 1 if draw(st.booleans()) else 17
+        big = [k / 2 for k in draw(st.lists(st.integers(-20, 20), min_size=lo_big, max_size=lo_big + 43))]
         o = dict(o, pos=big if shape == "few-neg" else small, neg=small if shape == "few-neg" else big,
                  mode="grid")
     sup = draw(_support(o["pos"] + o["neg"], spanning=(fn == "fixed_width_band_ci")))
     method, strat = draw(st.sampled_from(BUILTIN))
     return dict(fn=fn, o=o, sup=sup, method=method, strat=strat, ci=draw(st.sampled_from(CI_METHODS)),
                 alpha=draw(st.one_of(st.floats(min_value=0.01, max_value=0.5),
-                                     st.floats(min_value=0.5, max_value=0.99))), nb=draw(st.integers(5, 20)),
+                                     st.floats(min_value=0.5, max_value=0.99))),
+                nb=draw(st.integers(5, 20) if shape == "any" else st.integers(20, 40)),
                 seed=draw(gen.RNG_SEED), identity=draw(st.sampled_from([False, False, True])))
 
 
@@ -332,7 +341,7 @@ PROP = Prop(
                doc="closed form for every class size 1..400 (quick) / 1..3000 (thorough), all-scores support"),
         Clause("large_support", check_identity, kind="enum", cases=_large_cases, quick_shards=5, shards=12,
                min_nontrivial=3, doc="closed form on curves with 700-4200 support points"),
-        Clause("experimental", check_experimental, strategy=_exp_cases(), quick=100, thorough=4000,
+        Clause("experimental", check_experimental, strategy=_exp_cases(), quick=150, thorough=4000,
                quick_shards=4, min_nontrivial=80, doc="the three experimental band functions"),
     ],
     predicates={"fwb_unbalanced": _fwb_unbalanced, "fwb_two_point_curve": _fwb_two_point_curve},
